@@ -70,8 +70,14 @@ CHECKS = {
 
 def cmd(i, tier): return f"./run check {i} {tier}"
 
+HIST = {"C01", "C02", "C05", "C08", "C09", "C10", "C12", "C13", "C14", "C20"}
 checks = []
 for i, (eng, cat, tech, text, note, ref) in sorted(CHECKS.items()):
+    if i in HIST:
+        tech += "; plus exhaustive enumeration of call sequences (depth 2-3 over a small alphabet of calls incl. range operations) against fresh-process references"
+        text += " In addition every call sequence up to depth 2-3 over the alphabets listed in the evidence returns, call by call, exactly what the same call returns alone in a fresh process (no dependence on previous calls)."
+    if i == "C15":
+        text += " Engine S compiles a copy of the sources in which every std::sync/std::thread primitive is redirected to the scheduler-aware shim, so locks and atomics a change introduces are scheduling points too; configurations run under a time budget and are reported as CAPPED (exhaustive: false) if they hit it. Loss of the model<->code binding withdraws the model-derived coverage but is not a violation."
     checks.append({
         "property_id": i,
         "quick_cmd": cmd(i, "quick"),
